@@ -360,6 +360,126 @@ static bool run_sequences(runtime_cfg const& cfg, std::uint64_t count, int maxle
     return true;
 }
 
+
+// =============================================================================== race mode
+// Two plain OS threads per round, aligned by a spin barrier with a swept skew: A releases the (only) wrapper of access #1 at
+// the same instant at which B starts the sender(s) of the following access(es).  Whatever the order, once both calls
+// have returned and the runtime is quiescent every started access must have been granted exactly once and must have
+// seen A's write.  (A second-round seeded change - a load-then-store fast path in done() - loses the grant only in
+// this window.)
+struct spin_barrier2
+{
+    std::atomic<int> count{0};
+    std::atomic<unsigned> gen{0};
+    void wait() noexcept
+    {
+        unsigned g = gen.load(std::memory_order_acquire);
+        if (count.fetch_add(1, std::memory_order_acq_rel) + 1 == 2)
+        {
+            count.store(0, std::memory_order_relaxed);
+            gen.fetch_add(1, std::memory_order_release);
+        }
+        else
+            while (gen.load(std::memory_order_acquire) == g) __builtin_ia32_pause();
+    }
+};
+static std::atomic<std::uint64_t> g_race_rounds{0}, g_race_inline_grants{0};
+
+static bool run_race(runtime_cfg const& cfg, std::uint64_t rounds)
+{
+    using mutex_type = ex::async_rw_mutex<long>;
+    using rw_access = typename mutex_type::readwrite_access_type;
+    using ro_access = typename mutex_type::read_access_type;
+    struct shared_t
+    {
+        spin_barrier2 bar;
+        std::optional<mutex_type> m;
+        std::optional<rw_access> held;
+        std::vector<ex::unique_any_sender<>> next;    // the following accesses, already requested (in order) by A
+        std::atomic<int> granted{0}, stale{0};
+        std::atomic<bool> stop{false};
+        int nnext = 0;
+    };
+    auto sh = std::make_shared<shared_t>();
+    bool ok = true;
+    std::thread B([sh] {
+        rng r(g_seed * 77 + 5);
+        for (std::uint64_t i = 0;; ++i)
+        {
+            sh->bar.wait();
+            if (sh->stop.load()) break;
+            for (unsigned k = (unsigned) r.below(40); k > 0; --k) __builtin_ia32_pause();
+            for (auto& s : sh->next) ex::start_detached(std::move(s));
+            sh->next.clear();
+            sh->bar.wait();
+        }
+    });
+    rng r(g_seed * 79 + 3);
+    for (std::uint64_t i = 0; i < rounds && ok; ++i)
+    {
+        sh->m.emplace(0);
+        sh->granted = 0;
+        sh->stale = 0;
+        auto s1 = sh->m->readwrite();
+        int kind = (int) r.below(4);    // 0: one writer, 1: one reader, 2: two readers, 3: reader then writer
+        sh->nnext = kind < 2 ? 1 : 2;
+        auto add_read = [&] {
+            sh->next.emplace_back(sh->m->read() | ex::then([sh](ro_access a) {
+                if (a.get() != 42) sh->stale++;
+                sh->granted++;
+            }));
+        };
+        auto add_write = [&] {
+            sh->next.emplace_back(sh->m->readwrite() | ex::then([sh](rw_access a) {
+                if (a.get() != 42) sh->stale++;
+                sh->granted++;
+            }));
+        };
+        if (kind == 0) add_write();
+        else if (kind == 1) add_read();
+        else if (kind == 2)
+        {
+            add_read();
+            add_read();
+        }
+        else
+        {
+            add_read();
+            add_write();
+        }
+        sh->held.emplace(pika::this_thread::experimental::sync_wait(std::move(s1)));
+        sh->held->get() = 42;
+        sh->bar.wait();    // ---- both sides ready
+        for (unsigned k = (unsigned) r.below(40); k > 0; --k) __builtin_ia32_pause();
+        sh->held.reset();    // release access #1
+        sh->bar.wait();      // ---- B has started everything
+        if (sh->granted.load() == sh->nnext) g_race_inline_grants++;
+        auto wr = wait_quiescent([&] { return sh->granted.load() >= sh->nnext; }, [&] { return (std::uint64_t) sh->granted.load(); }, 30.0, 12);
+        if (wr != wait_result::done)
+        {
+            vio("race:grant-lost", sf("round %lu (following accesses: %s): access #1 was released and %d following access(es) were started at the same instant, %d granted; %s",
+                                        (unsigned long) i, kind == 0 ? "write" : (kind == 1 ? "read" : (kind == 2 ? "read,read" : "read,write")), sh->nnext, sh->granted.load(),
+                                        wr == wait_result::deadlock ? "runtime quiescent" : "stalled"));
+            ok = false;
+        }
+        else if (sh->granted.load() != sh->nnext)
+            vio("race:granted-twice", sf("round %lu: %d grants for %d started accesses", (unsigned long) i, sh->granted.load(), sh->nnext));
+        if (sh->stale.load()) vio("race:stale-value", sf("round %lu: a following access did not see the value written under access #1", (unsigned long) i));
+        g_race_rounds++;
+        if (ok) sh->m.reset();
+    }
+    sh->stop = true;
+    if (ok)
+    {
+        sh->bar.wait();
+        B.join();
+    }
+    else
+        B.detach();
+    (void) cfg;
+    return ok;
+}
+
 int main(int argc, char** argv)
 {
     args_t a(argc, argv);
@@ -379,7 +499,11 @@ int main(int argc, char** argv)
         runtime rt(cfg);
         std::vector<std::thread> ospool;
         for (int i = 0; i < 3; ++i) ospool.emplace_back(os_loop);
-        ok = type == "void" ? run_sequences<false>(cfg, count, maxlen) : run_sequences<true>(cfg, count, maxlen);
+        if (a.str("mode", "sequences") == "race") ok = run_race(cfg, a.u64("rounds", 100000));
+        else ok = type == "void" ? run_sequences<false>(cfg, count, maxlen) : run_sequences<true>(cfg, count, maxlen);
+        report.add("race_rounds", g_race_rounds.load());
+        report.bit("race_release_vs_start", g_race_rounds.load());
+        report.bit("race_grant_inline", g_race_inline_grants.load());
         report.add("sequences", g_sequences.load());
         report.add("requests", g_requests.load());
         report.add("grants", g_grants.load());
